@@ -1081,6 +1081,8 @@ class Evaluator:
             a = self.ev(e[3], env)
             b = self.ev(e[4], env)
             if t == STR:
+                if len(a) + len(b) > 200000:
+                    raise OutOfModel("huge string")     # e.g. s := s + s in a loop: exponential, the runs die of memory exhaustion
                 return a + b
             if op == "+":
                 r = a + b
